@@ -14,7 +14,7 @@ HEADER = S.HEADER.replace('Model.Server Model.ServerCmp.', 'Model.Server Model.S
 
 # ------------------------------------------------------------------ harness driver (two observations per case)
 def case_line(c):
-    return S.case_line(c) + ' fill=%d' % c['fill']
+    return S.case_line(c) + ' fill=%d yield=%d hook=%d fdfail=%d' % (c['fill'], int(bool(c.get('yield'))), int(bool(c.get('hook'))), int(bool(c.get('fdfail'))))
 
 def run_impl(cases, bindir, timeout=900):
     inp = '\n'.join(case_line(c) for c in cases) + '\n'
@@ -34,7 +34,8 @@ def hdr_of(c):
 
 def view(c, o):
     """what C20 compares: result, call log, reply (packets on fusedev / used bytes on virtio)"""
-    return (o['res'], o['panic'], tuple(o['calls']), tuple(o['packets']) if c['tr'] != 'virtio' else (), o['mem'] if c['tr'] == 'virtio' else b'')
+    return (o['res'], o['panic'], tuple(o['calls']) + ((('hook:' + o.get('hooklog', '-')),) if c.get('hook') else ()),
+            tuple(o['packets']) if c['tr'] != 'virtio' else (), o['mem'] if c['tr'] == 'virtio' else b'')
 
 def errhdr(errno, unique):
     return struct.pack('<IiQ', 16, -errno, unique)
@@ -111,7 +112,8 @@ def model_vs_impl(tag, cases, obs, mask, broken, sync_every=1):
         broken.append({'kind': 'proof', 'name': 'build of Model/ServerAsync.vo failed', 'site': coq_error_site(out)})
         return [], []
     idx = [i for i, c in enumerate(cases) if c['id'] in obs and 'sync' in obs[c['id']] and 'async' in obs[c['id']]
-           and not (sync_every > 1 and c.get('block') == 'early' and c.get('half') and view(c, obs[c['id']]['sync']) == view(c, obs[c['id']]['async']))]
+           and not c.get('fdfail')      # the models assume the fd accepts every write
+           and not (sync_every > 1 and c.get('block') and c.get('half') and view(c, obs[c['id']]['sync']) == view(c, obs[c['id']]['async']))]
     exprs = []; tags = []
     for n, i in enumerate(idx):
         c = cases[i]; k = 'Virtio' if c['tr'] == 'virtio' else 'FuseDev'
@@ -213,6 +215,59 @@ def early_return_cases(rng, transports=('fusedev', 'virtio')):
                         out.append(S.make_case(rng, 0, q['bytes'], fs, q, transport=tr, cap=max(cap, 0), remap=(0, 0), minor=33, vu=False))
     return out
 
+FLAG_WORDS = [(3, 'getattr_flags'), (4, 'valid'), (15, 'read_flags'), (16, 'write_flags'), (20, 'fsync_flags'), (30, 'fsync_flags')]
+
+def audit_cases(rng, full):
+    """deterministic blocks added by the coverage audit (notes/C20.md): every dispatch arm once well-formed with a MetricsHook
+    attached, every gating flag word one bit at a time, every error kind through every reply-helper path, count truncation,
+    open/create answer shapes, suspended futures (the filesystem returns Pending once), a /dev/fuse that refuses the write."""
+    out = []
+    trs = ('fusedev', 'virtio')
+    def mk(q, fs=None, req=None, **kw):
+        c = S.make_case(rng, 0, req if req is not None else q['bytes'], fs if fs is not None else q['fs'], q if req is None else None,
+                        transport=kw.pop('tr', trs[len(out) % 2]), cap=kw.pop('cap', 1 << 16), remap=(0, 0), minor=33, vu=kw.pop('vu', True))
+        c.update(kw); c['block'] = 'audit'; c['half'] = kw.get('half', 0); out.append(c); return c
+    # A. every arm of the dispatch, well-formed, with a hook; and opcodes without an arm
+    for op in sorted(S.OPS):
+        q = S.gen_wf(rng, op)
+        mk(q, S.gen_fs(rng, S.OPS[op][3][0], op, q['fields']), hook=True)
+    q = S.gen_wf(rng, 10)
+    for op in (0, 7, 19, 47, 50, 51, 4096, 1 << 31, (1 << 32) - 1):
+        b = bytearray(q['bytes']); struct.pack_into('<I', b, 4, op)
+        mk(q, ('unit',), req=bytes(b), hook=True)
+    # B. gating flag words, one bit at a time (and none, all)
+    bits = list(range(32)) if full else list(range(12)) + [31]
+    for op, field in FLAG_WORDS:
+        for i, v in enumerate([0, (1 << 32) - 1] + [1 << b for b in bits]):
+            q = S.gen_wf(rng, op)
+            f = dict(q['fields']); f[field] = v
+            body = S.enc_struct(S.OPS[op][1], f) + q['payload']
+            h = q['hdr']
+            req = S.in_header(40 + len(body), op, h['unique'], h['nodeid'], h['uid'], h['gid'], h['pid']) + body
+            mk(q, S.gen_fs(rng, OK_KIND[op][0], op, f), req=req, half=i % 2, **{'yield': i % 3 == 0})
+    # C. every error kind / boundary errno through every reply-helper path
+    for op in (ASYNC_OPS if full else (3, 15, 16, 35)):
+        for i, e in enumerate([('err', 'kind', k) for k in range(10)] + [('err', 'os', 1), ('err', 'os', 4095)]):
+            q = S.gen_wf(rng, op)
+            mk(q, e, half=i % 2, **{'yield': i % 2 == 1})
+    # D. count returned by write larger than 32 bits (`count as u32`)
+    for n_ in ((1 << 32) + 5, (1 << 64) - 1):
+        for tr in trs:
+            q = S.gen_wf(rng, 16); mk(q, ('count', n_), tr=tr)
+    # E. open / create answers: handle absent / present x each OpenOptions bit
+    for op, kind in ((14, 'open'), (35, 'create')):
+        for fh in (None, 0, (1 << 64) - 1):
+            for opts in (0, 1, 2, 4, 8, 16, 31):
+                q = S.gen_wf(rng, op)
+                fs = ('open', fh, opts, None) if kind == 'open' else ('create', S.gen_entry(rng), fh, opts, None)
+                mk(q, fs, half=1 if opts in (2, 8) else 0, **{'yield': opts == 4})
+    # F. the fd refuses the write (fusedev): both handlers must report the failure alike; not modelled (the models' fd accepts)
+    for op in ASYNC_OPS + (10, 28, 38, 2):
+        q = S.gen_wf(rng, op)
+        mk(q, S.gen_fs(rng, S.OPS[op][3][0], op, q['fields']), tr='fusedev', fdfail=True)
+        if 'err' in S.OPS[op][3]: mk(q, ('err', 'os', 5), tr='fusedev', fdfail=True)
+    return out
+
 def gen(rng, n, start=0, targeted='full', witnesses=True, config_block=True):
     cases = S.gen_cases(rng, n, frac_malformed=0.35)
     # the async handlers get extra weight: as many cases again are theirs
@@ -245,6 +300,7 @@ def gen(rng, n, start=0, targeted='full', witnesses=True, config_block=True):
     cases += extra
     if config_block:
         cases += config_cases(rng)
+        cases += audit_cases(rng, targeted == 'full')
         er = early_return_cases(rng)
         for i, c in enumerate(er): c['block'] = 'early'; c['half'] = i % 2
         cases += er
@@ -311,7 +367,7 @@ def run_check(tier, seed):
     if not ok:
         broken.append({'kind': 'harness-build', 'log': out[-3000:]})
         return finish(ev, PROP, findings, broken)
-    n = 60 if tier == 'quick' else 3000
+    n = 40 if tier == 'quick' else 3000
     quick = tier == 'quick'
     rng = random.Random(seed)
     cases = gen(rng, n, targeted='some' if quick else 'full')
@@ -429,7 +485,7 @@ def replay(path):
             if line.startswith('id='):
                 x = S.parse_obs(line); obs[x['mode']] = x
         c = {'id': i['id'], 'tr': i['tr'], 'cap': i['cap'], 'req': bytes.fromhex(i['req']), 'remap': 'fail' if i['remap'] == 'fail' else tuple(i['remap']),
-             'fill': i.get('fill', 165), 'fs': ('raw',), 'wf': None, 'minor': i.get('minor'), 'vu': i.get('vu', False)}
+             'fill': i.get('fill', 165), 'fs': ('raw',), 'wf': None, 'minor': i.get('minor'), 'vu': i.get('vu', False), 'hook': 'hook=1' in i['harness_line']}
         print('case %d: %s' % (n, i['harness_line'][:300]))
         for m in ('sync', 'async'):
             if m in obs: print('  %-5s res=%s calls=%s packets=%s mem=%s' % (m, obs[m]['res'], [x.split('(')[0] for x in obs[m]['calls']], [p.hex() for p in obs[m]['packets']], obs[m]['mem'].hex()[:96]))
